@@ -7,7 +7,7 @@ from vf.runner import Acc, filler
 
 PROPERTY = "C03"
 # E6: seq_ops() indices of the operations that are interrupted at every line (vf/seqexplore.interrupted); probes = the whole alphabet
-INTERRUPT_X = [4, 9]
+INTERRUPT_X = [4, 10]
 INTERRUPT_PROBES = None
 CONCUR_FILES = ('bits/ecmath.py', 'bits/utils.py', 'bits/keys.py')
 LEVEL = "exploration"
@@ -27,6 +27,7 @@ ASSUMPTIONS = [
 OBLIGATIONS = {
     "long_history": "operations executed in one long history (every key of a 199-element group, forward / forward / reverse)",
     "interrupted_calls": "interruption points explored (an earlier call cut short by an asynchronous exception, then ordinary calls)",
+    "field_boundary_operands": "field helpers on the real moduli with boundary operands (incl. products with tiny residues)",
     "history_sequences": "operation sequences (non-initial process states) explored",
     "concurrent_calls": "interleavings of two concurrent scalar multiplications (cold and after sequential warm-up calls)",
     "add_identity": "P + identity / identity + identity evaluated",
@@ -82,11 +83,14 @@ def chk_mul(case):
     em = _em()
     C = _curve(case)
     k, P = case["k"], _pt(case["P"])
+    if isinstance(k, list):          # ["pow10", e, a] = 10**e + a (kept symbolic: JSON cannot carry > 4300 decimal digits)
+        k = 10 ** k[1] + k[2]
     r = call(em.point_scalar_mul, k, P)
     exp = C.mul(k, P)
     if r != ("ok", exp):
         cls = "zero" if k % C.n == 0 else "above-n" if k > C.n else "below-n"
-        return [(f"C03/mul/{cls}", f"point_scalar_mul({k},{P}) = {str(r)[:200]}, reference {exp}")]
+        ks = str(k) if k.bit_length() < 600 else f"<{k.bit_length()}-bit scalar {hex(k)[:20]}..>"
+        return [(f"C03/mul/{cls}", f"point_scalar_mul({ks},{P}) = {str(r)[:200]}, reference {exp}")]
     return []
 
 
@@ -212,7 +216,35 @@ def chk_keygen(case):
     return []
 
 
-CASES = {"add": chk_add, "mul": chk_mul, "ident": chk_ident, "coord": chk_coord, "privkey": chk_privkey,
+def chk_field(case):
+    """the field helpers on the REAL moduli (the field prime p and the group order n of secp256k1) against plain integer
+    arithmetic: any fast path specialised for these constants is bypassed on the scaled-down curves"""
+    import bits.ecmath as em
+    m = {"p": S.p, "n": S.n}[case["mod"]]
+    x, y = case["x"], case["y"]
+    out = []
+    exp = {"add": (x + y) % m, "sub": (x - y) % m, "mul": (x * y) % m}
+    for nm, fn in (("add", em.add_mod_p), ("sub", em.sub_mod_p), ("mul", em.mul_mod_p)):
+        g = call(fn, x, y, m)
+        if g != ("ok", exp[nm]):
+            out.append((f"C03/field/{nm}", f"{nm}_mod_p({x:#x}, {y:#x}, {case['mod']}) = {str(g)[:90]}, expected {exp[nm]:#x}"))
+    if y:
+        g = call(em.div_mod_p, x, y, m)
+        e = x * pow(y, -1, m) % m
+        if g != ("ok", e):
+            out.append(("C03/field/div", f"div_mod_p({x:#x}, {y:#x}, {case['mod']}) = {str(g)[:90]}, expected {e:#x}"))
+    g = call(em.pow_mod_p, x, y, m)
+    if g != ("ok", pow(x, y, m)):
+        out.append(("C03/field/pow", f"pow_mod_p({x:#x}, {y:#x}, {case['mod']}) = {str(g)[:90]}"))
+    if case["mod"] == "p":
+        g = call(em.sqrt_mod_p, x, m)
+        isq = pow(x, (m - 1) // 2, m) in (0, 1)
+        if g[0] == "ok" and isq and not ({r * r % m for r in g[1]} == {x} and sum(g[1]) % m == 0):
+            out.append(("C03/field/sqrt", f"sqrt_mod_p({x:#x}) = {str(g)[:120]}"))
+    return out
+
+
+CASES = {"field": chk_field, "add": chk_add, "mul": chk_mul, "ident": chk_ident, "coord": chk_coord, "privkey": chk_privkey,
          "keygen": chk_keygen}
 
 
@@ -271,7 +303,7 @@ def seq_ops(job):
     P, Q = C.mul(3, C.G), C.mul(5, C.G)
     ops = [("add", {"curve": cv, "P": list(P), "Q": list(Q)}), ("add", {"curve": cv, "P": list(P), "Q": list(P)}),
            ("add", {"curve": cv, "P": list(P), "Q": list(C.neg(P))}), ("add", {"curve": cv, "P": None, "Q": list(Q)}),
-           ("mul", {"curve": cv, "k": C.n + 2, "P": list(C.G)}), ("mul", {"curve": cv, "k": 7, "P": list(Q)}), ("mul", {"curve": cv, "k": 0, "P": list(P)}),
+           ("mul", {"curve": cv, "k": C.n + 2, "P": list(C.G)}), ("mul", {"curve": cv, "k": ["pow10", 4300, 7], "P": list(C.G)}), ("mul", {"curve": cv, "k": 7, "P": list(Q)}), ("mul", {"curve": cv, "k": 0, "P": list(P)}),
            ("mul", {"curve": cv, "k": 7, "P": list(C.neg(Q))}), ("ident", {"curve": cv, "a": 6, "b": C.n - 1, "P": list(P)}),
            ("privkey", {"curve": cv, "key": (3).to_bytes(32, "big").hex()}), ("privkey", {"curve": cv, "key": C.n.to_bytes(32, "big").hex()}),
            ("keygen", {"curve": cv, "draw": ["abs", 0]}), ("keygen", {"curve": cv, "draw": ["top", 1]}), ("coord", {"curve": cv, "x": P[0], "y": P[1]}),
@@ -285,6 +317,8 @@ def real_scalars(tier, seed):
     ks = [0, 1, 2, 3, 4, 5, n - 2, n - 1, n, n + 1, 2 * n - 1, 2 * n, 2 * n + 1, 2 ** 256 - 1, 2 ** 256, (n - 1) // 2, (n + 1) // 2,
           (n - 1) ** 2, (n - 1) ** 4, 2 ** 1000 + 1, 2 ** 1500 - 1, 2 ** 4096 + 12345,
           int.from_bytes(filler(seed, "c03-k", 32), "big"), int.from_bytes(filler(seed, "c03-k2", 40), "big")]
+    from vf.classes import limb_scalars
+    ks += limb_scalars()
     for i in range(0, 257):
         ks.append(2 ** i)
     for i in ((8, 64, 128, 255, 256) if tier == "quick" else range(2, 257)):
@@ -316,6 +350,8 @@ def jobs(tier, seed):
     for sh in range(nsh):
         js.append({"name": f"secp/mul/{sh}", "part": "realmul", "shard": [sh, nsh], "weight": 12})
     js.append({"name": "secp/add", "part": "realadd", "weight": 3})
+    for sh in range(4):
+        js.append({"name": f"secp/field/{sh}", "part": "field", "shard": [sh, 4], "weight": 4})
     js.append({"name": "secp/keys", "part": "realkeys", "weight": 6})
     from vf.runner import seq_jobs
     js += seq_jobs(3, curve=list(smallcurve.TABLE[0]), weight=3)
@@ -456,6 +492,32 @@ def run_job(job):
                     if S.mul(k, S.G) != (pn.x, pn.y):
                         raise RuntimeError("reference disagrees with OpenSSL")
             acc.sample({"secp256k1_scalar": hex(k)})
+    elif part == "field":
+        sh, nsh = job["shard"]
+        i = 0
+        for mod, m in (("p", S.p), ("n", S.n)):
+            c = (1 << 256) - m                    # 2^256 = c (mod m): the constant a folded reduction works with
+            import math
+            xs = [0, 1, 2, 3, c - 1, c, c + 1, 2 * c, c * c % m, 1 << 32, (1 << 64) - 1, 1 << 64, (1 << 128) - 1, 1 << 128, (1 << 128) + 1,
+                  (1 << 255) - 1, 1 << 255, (1 << 255) + 1, m - c - 1, m - c, m - 3, m - 2, m - 1, (m - 1) // 2, (m + 1) // 2,
+                  math.isqrt(m), math.isqrt(m) + 1, math.isqrt(2 * m), math.isqrt(2 * m) + 1, math.isqrt(3 * m) + 1,
+                  int.from_bytes(filler(job["seed"], "c03-f1", 32), "big") % m, int.from_bytes(filler(job["seed"], "c03-f2", 32), "big") % m]
+            xs = list(dict.fromkeys(v % m for v in xs))
+            pairs = [(x, y) for x in xs for y in xs]
+            # products whose true residue is tiny / just below the modulus / around the folding constant
+            for x in xs[-2:] + [m - 1, 1 << 128]:
+                inv = pow(x, -1, m)
+                for r in (0, 1, 2, c - 1, c, c + 1, m - 1, m - 2, (1 << 32) + 976):
+                    pairs.append((x, r % m * inv % m))
+            for x, y in pairs:
+                i += 1
+                if i % nsh != sh:
+                    continue
+                acc.evaluations += 1
+                acc.nontrivial += 1
+                acc.ob("field_boundary_operands")
+                acc.check("field", {"mod": mod, "x": x, "y": y}, chk_field)
+        acc.sample({"field_operand_pairs": i})
     elif part == "realadd":
         P = S.mul(7, S.G)
         Q = S.mul(int.from_bytes(filler(job["seed"], "c03-Q", 32), "big") % S.n or 1, S.G)
